@@ -218,6 +218,14 @@ func Generate(profile string, seed uint64, tier string) (*Scenario, error) {
 			}
 			sc.Tasks = append(sc.Tasks, ops)
 		}
+		if g.P(0.6) {
+			// a client that keeps asking for the dataset list
+			var ops []Op
+			for i := g.Range(2, 6); i > 0; i-- {
+				ops = append(ops, Op{K: "listDatasets"})
+			}
+			sc.Tasks = append(sc.Tasks, ops)
+		}
 		for ti := range sc.Tasks {
 			if len(sc.Tasks[ti]) > 0 && isWrite(sc.Tasks[ti][0].K) && g.P(0.5) {
 				ents := []Ent{{"id": g.Pick([]string{MkE + "e0", MkE + "e1", MkE + "m" + fmt.Sprint(ti)}), "props": map[string]any{MkS + "w": fmt.Sprintf("mgr%d", ti)}, "refs": map[string]any{}}}
